@@ -2,7 +2,7 @@
    (definitions only).  The trie side is parameterised by the implementation record so that the
    same interpreter runs the repaired model and the model of the pinned tree. *)
 From Common Require Import Bytes Outcome.
-From Trie Require Import Nibbles Node Encode Model Spec.
+From Trie Require Import Nibbles Node Encode Model Spec GoSpec.
 
 Inductive op :=
 | OpPut (k : list byte) (v : value)
@@ -94,4 +94,23 @@ Fixpoint run_bmap (m : bmap) (ops : list op) : list out :=
   match ops with
   | [] => []
   | o :: r => let '(m', x) := bm_step m o in x :: run_bmap m' r
+  end.
+
+(* ---- the ordered map with the matching rule of the Go code (Trie/GoSpec.v): the prefix
+   operations match a byte prefix minus one trailing zero nibble, and a limited clear with limit 0
+   reports "not all deleted".  run_gomap is what the trie computes also INSIDE the known-finding
+   classes prefix-trim and clear-limit-zero (C02_refines_go). ---- *)
+Definition gm_step (m : bmap) (o : op) : bmap * out :=
+  match o with
+  | OpClear p => let m' := go_clear_prefix m p in (m', OutEntries (bm_listing m'))
+  | OpClearLimit p l =>
+    let '(m', d, a) := go_clear_prefix_limit m p l in (m', OutLimit d a (bm_listing m'))
+  | OpKeys p => (m, OutKeys (go_keys_with_prefix m p))
+  | _ => bm_step m o
+  end.
+
+Fixpoint run_gomap (m : bmap) (ops : list op) : list out :=
+  match ops with
+  | [] => []
+  | o :: r => let '(m', x) := gm_step m o in x :: run_gomap m' r
   end.
